@@ -10,4 +10,12 @@ CLAIMED = {
         "DESIGN.md §4 C11",
     ),
 }
+CLAIMED["C15"] = (
+    PBT + ": scipy normal CDF / own mixture CDF as reference, replay and purity relations, affine (units) metamorphic relation for the estimator",
+    "Generated distributions (deterministic, normal, 2-4 component mixtures, trainable) x rng keys x sample shapes x quantile levels, plus generated delay "
+    "data sets for GMMEstimator. Every case checks non-negativity, purity/replay of sampling, jit agreement, quantile monotonicity and CDF agreement, the "
+    "default expected delay of nodes/connections, and estimator well-formedness incl. fit(a*x+b) = a*fit(x)+b. Exploration fits a universally quantified numeric API.",
+    "scipy.stats.norm trusted as CDF reference; q in [0.01,0.995]; estimator relation asserted with loose tolerances (optimiser amplifies float32 rounding)",
+    "DESIGN.md §4 C15",
+)
 NOT_APPLICABLE = {}
